@@ -24,7 +24,10 @@ def codecItem (S : Schema) (name : String) (fuel : Nat) (ty : Option Ty) (j : Js
     match ty with
     | some t =>
       out := out ++ [("wf", Json.bool (wf t v)), ("spec_bytes", J.natsToJson (encBytes t v)),
-                     ("spec_bits", (enc t v).length)]
+                     ("spec_bits", (enc t v).length),
+                     ("cpp_bytes", J.natsToJson (pack (Cpp.cppEnc t v))),
+                     ("dyn_bytes", J.natsToJson (Cpp.dynEnc t v)),
+                     ("byte_granular", Json.bool (Cpp.ByteGranular t)), ("widths", Json.bool (Cpp.Widths t))]
     | none => pure ()
     out := out ++ [("py_enc", exceptJson J.natsToJson (pyEncode S fuel name v))]
   | .error _ => pure ()
@@ -33,7 +36,10 @@ def codecItem (S : Schema) (name : String) (fuel : Nat) (ty : Option Ty) (j : Js
     let bs ← J.natList bj
     match ty with
     | some t =>
-      out := out ++ [("spec_dec", match decBytes t bs with | some v => J.valToJson v | none => Json.mkObj [("none", true)])]
+      let vj (o : Option (Val × Bits)) : Json :=
+        match o with | some p => J.valToJson p.1 | none => Json.mkObj [("none", true)]
+      out := out ++ [("spec_dec", match decBytes t bs with | some v => J.valToJson v | none => Json.mkObj [("none", true)]),
+                     ("cpp_dec", vj (Cpp.cppDec t (unpack bs))), ("dyn_dec", vj (Cpp.dynDec t (unpack bs)))]
     | none => pure ()
     out := out ++ [("py_dec", exceptJson J.valToJson (pyDecode S fuel name bs))]
   | .error _ => pure ()
@@ -348,6 +354,53 @@ def opReflect (j : Json) : Except String Json := do
   return Json.mkObj [("record", J.valToJson v), ("wf", ok),
     ("bytes", if ok then J.natsToJson (encBytes Refl.reflTy v) else Json.null)]
 
+/-- cpp: carrier widths, enum widths and `GetWord` + cast on explicit words -/
+def opCpp (j : Json) : Except String Json := do
+  let ns ← J.natList (← j.getObjVal? "carrier")
+  let ms ← J.natList (← j.getObjVal? "enum_max")
+  let gw ← j.getObjValAs? (Array Json) "getword"
+  let gws ← gw.toList.mapM fun g => do
+    let l ← J.natList g
+    match l with
+    | [n, c, r] => pure (Json.num ⟨Cpp.castSigned c (Cpp.getWord n true r), 0⟩)
+    | _ => throw "getword needs [n, c, r]"
+  let bits (m : Nat) : Json :=
+    match (Enum.packedSize ⟨"E", [⟨"A", 0⟩, ⟨"B", (m : Int)⟩]⟩) with
+    | some b => Json.num ⟨(b : Int), 0⟩
+    | none => Json.null
+  return Json.mkObj [("carrier", J.natsToJson (ns.map Cpp.carrier)), ("enum_bits", Json.arr (ms.map bits).toArray),
+    ("getword", Json.arr gws.toArray)]
+
+/-- frame: the CAN wrapper over a binding table -/
+def opFrame (j : Json) : Except String Json := do
+  let S ← J.schema (← j.getObjVal? "schema")
+  let fuel := getFuel j
+  let bj ← j.getObjValAs? (Array Json) "bindings"
+  let bs ← bj.toList.mapM fun b => do
+    let name ← b.getObjValAs? String "name"
+    let id ← b.getObjValAs? Nat "id"
+    let bus ← J.natList (← b.getObjVal? "bus")
+    match resolve S fuel (.struct name) with
+    | some t => pure ({ name := name, id := id, bus := bus, ty := t } : Cpp.Binding)
+    | none => throw s!"binding {name} does not resolve"
+  let items ← j.getObjValAs? (Array Json) "items"
+  let outs ← items.mapM fun it => do
+    match it.getObjVal? "encode" with
+    | .ok e =>
+      let name ← e.getObjValAs? String "name"
+      let v ← J.val (← e.getObjVal? "value")
+      match Cpp.encodeFrame bs name v with
+      | some f => pure (Json.mkObj [("bus", J.natsToJson f.bus), ("sid", f.sid), ("dlc", f.dlc), ("data", J.natsToJson f.data)])
+      | none => pure (Json.mkObj [("none", true)])
+    | .error _ =>
+      let d ← it.getObjVal? "decode"
+      let f : Cpp.Frame := { bus := ← J.natList (← d.getObjVal? "bus"), sid := ← d.getObjValAs? Nat "sid",
+                             dlc := ← d.getObjValAs? Nat "dlc", data := ← J.natList (← d.getObjVal? "data") }
+      match Cpp.decodeFrame bs f with
+      | some (n, v) => pure (Json.mkObj [("name", n), ("value", J.valToJson v)])
+      | none => pure (Json.mkObj [("none", true)])
+  return Json.mkObj [("items", Json.arr outs)]
+
 def opSched (j : Json) : Except String Json := do
   let periods ← j.getObjValAs? (Array Int) "periods"
   let times ← j.getObjValAs? (Array Nat) "times"
@@ -368,6 +421,8 @@ def dispatch (j : Json) : Except String Json := do
   | "canc" => opCanC j
   | "parse" => opParse j
   | "reflect" => opReflect j
+  | "cpp" => opCpp j
+  | "frame" => opFrame j
   | _ => throw s!"unknown op {op}"
 
 partial def loop (hin : IO.FS.Stream) (hout : IO.FS.Stream) : IO Unit := do
